@@ -515,6 +515,22 @@ def _endpoint_from_socksport_line(reactor, socks_config):
     return TCP4ClientEndpoint(reactor, host, port)
 
 
+def _first_usable_socks_endpoint(reactor, lines):
+    """
+    Internal helper: an endpoint for the first SOCKSPort line that
+    names a listener we can connect to ("0" means "disabled"; "auto"
+    and the like cannot be connected to), or None
+    """
+    for line in lines:
+        if line.split()[0] == '0':
+            continue
+        try:
+            return _endpoint_from_socksport_line(reactor, line)
+        except ValueError:
+            continue
+    return None
+
+
 class TorConfig:
     """This class abstracts out Tor's config, and can be used both to
     create torrc files from nothing and track live configuration of a Tor
@@ -640,7 +656,10 @@ class TorConfig:
 
         socks_config = None
         if port is None:
-            socks_config = self.SocksPort[0]
+            ep = _first_usable_socks_endpoint(reactor, self.SocksPort)
+            if ep is None:
+                raise RuntimeError("No usable SOCKS ports configured")
+            return ep
         else:
             port = str(port)  # in case e.g. an int passed in
             if ' ' in port:
@@ -694,7 +713,12 @@ class TorConfig:
                 raise RuntimeError(
                     "socks_port is None and Tor has no SocksPorts configured"
                 )
-            socks_config = self.SocksPort[0]
+            ep = _first_usable_socks_endpoint(reactor, self.SocksPort)
+            if ep is None:
+                raise RuntimeError(
+                    "socks_port is None and Tor has no usable SocksPorts configured"
+                )
+            return ep
         else:
             if not any([socks_config == port or socks_config == port.split()[0]
                         for port in self.SocksPort]):
